@@ -20,6 +20,7 @@ def run(prog, chk):
         "hhea / vhea summarise exactly that table over the whole glyph order: every glyph's advance is counted (also glyphs without outline), bearings / extents only for glyphs with a box, extent = bearing + box size, second bearing = advance - bearing - box size, max/min with 0 for empty lists (R04.3)",
         "the long-metric count is the number of advances minus the trailing run equal to the last one (at least 1) (R04.4)",
         "font bounding box = union of all glyph boxes, head gets it rounded, xMin..yMax roles (R04.5)",
+        "the metrics tables are only written by their own builders (R04.7)",
         "OS/2 first / last character index = min / max of the mapped code points, last capped at 0xFFFF, 0xFFFF without code points; maxp.numGlyphs = number of glyphs in the glyph order; post 2.0 names follow the glyph order; VORG default = most frequent origin, records for the others (R04.6)",
     ]
     chk.not_decided += ["save / reload / re-save byte identity (fontTools)", "glyph bounding box arithmetic (pens)", "values recalculated by fontTools at compile time (maxp for glyf, OS/2 indices)"]
@@ -29,6 +30,7 @@ def run(prog, chk):
     r044(prog, chk)
     r045(prog, chk)
     r046(prog, chk)
+    r047(prog, chk)
 
 
 # ----------------------------------------------------------------------------- R04.1
@@ -273,7 +275,69 @@ def r046(prog, chk):
     chk.minimum("R04.6", 4)
 
 
+# ----------------------------------------------------------------------------- R04.7
+METRICS_TAGS = ("hmtx", "vmtx")
+
+
+def _is_metrics_table_expr(e: ast.AST) -> Optional[str]:
+    if isinstance(e, ast.Subscript) and isinstance(e.slice, ast.Constant) and e.slice.value in METRICS_TAGS:
+        return e.slice.value
+    if isinstance(e, ast.Call) and A.callee_name(e) in ("newTable", "get") and e.args and isinstance(e.args[0], ast.Constant) and e.args[0].value in METRICS_TAGS:
+        return e.args[0].value
+    return None
+
+
+def r047(prog, chk):
+    """Only the two builders write the metrics tables: anything else that stores
+    into hmtx / vmtx changes bearings or advances behind the back of the header
+    computation and of the 'bearing = own box' rule."""
+    ix = prog.ix
+    owners = {"BaseOutlineCompiler.setupTable_hmtx": "hmtx", "BaseOutlineCompiler.setupTable_vmtx": "vmtx"}
+    n = 0
+    seen_owner = set()
+    for fi in ix.functions.values():
+        aliases: Dict[str, str] = {}
+        for st in A.stmts_of(fi.node):
+            if isinstance(st, ast.Assign):
+                tag = _is_metrics_table_expr(st.value)
+                if tag:
+                    for t in st.targets:
+                        if isinstance(t, ast.Name):
+                            aliases[t.id] = tag
+
+        def table_of(e):
+            while isinstance(e, ast.Attribute) and e.attr == "metrics":
+                e = e.value
+            if isinstance(e, ast.Name) and e.id in aliases:
+                return aliases[e.id]
+            return _is_metrics_table_expr(e)
+        for node in A.body_nodes(fi.node):
+            tgt = None
+            if isinstance(node, (ast.Assign, ast.Delete)):
+                for t in node.targets:
+                    if isinstance(t, ast.Subscript) and table_of(t.value):
+                        tgt = table_of(t.value)
+                    elif isinstance(t, ast.Attribute) and t.attr == "metrics" and table_of(t.value):
+                        tgt = table_of(t.value)
+            elif isinstance(node, ast.Call) and isinstance(node.func, ast.Attribute) and node.func.attr in ("update", "pop", "clear", "setdefault", "__setitem__") and table_of(node.func.value):
+                tgt = table_of(node.func.value)
+            if tgt is None:
+                continue
+            n += 1
+            ok = owners.get(fi.short) == tgt
+            if ok:
+                seen_owner.add(fi.short)
+            chk.ob("R04.7", f"{fi.short}|{A.keytext(fi.node, node)[:60]}", ok, where(fi, node), detail=f"{tgt} written by its builder",
+                   message=f"{fi.short} writes the {tgt} table (`{T(node, 60)}`): only setupTable_{tgt} may, or side bearings / advances stop matching the glyph data and the header")
+    need(seen_owner == set(owners), f"metrics table builders not recognised: {sorted(seen_owner)}")
+    chk.minimum("R04.7", 4)
+
+
 MUTANTS = [
+    M("use-my-metrics composites take the base glyph's hmtx record (seeded C04b)", "ufo2ft/instructionCompiler.py", "InstructionCompiler.autoUseMyMetrics",
+      "width = hmtx[glyphName][0]", "width = hmtx[glyphName][0]\nhmtx[glyphName] = (width, 0)", rule="R04.7"),
+    M("post-processor zeroes negative bearings", "ufo2ft/postProcessor.py", "PostProcessor.process_glyph_names",
+      "self.set_post_table_format(self.otf, 2.0)", "self.set_post_table_format(self.otf, 2.0)\nfor gn, (adv, lsb) in list(self.otf['hmtx'].metrics.items()):\n    self.otf['hmtx'].metrics[gn] = (adv, max(lsb, 0))", rule="R04.7"),
     M("header built before its metrics table", "ufo2ft/outlineCompiler.py", "BaseOutlineCompiler.compile",
       "self.setupTable_hmtx()\nself.setupTable_hhea()", "self.setupTable_hhea()\nself.setupTable_hmtx()", rule="R04.1"),
     M("vhea summarises hmtx", "ufo2ft/outlineCompiler.py", "BaseOutlineCompiler._setupTable_hhea_or_vhea",
